@@ -569,6 +569,8 @@ def opaque_event(I, name, args, exc_cls=None, exc_arg=None):
 
 def get_item(I, obj, idx):
     from .interp import Raised
+    if getattr(obj, 'kind', '') == 'repeatdict':
+        return obj.state.repeat_get(I, idx)
     if isinstance(obj, VAny) and I.spec_mode == 0 and \
             (getattr(I.contract, 'ghost', None) or {}).get('opaque_subscript'):
         return opaque_event(I, 'subscr', [obj, idx])
@@ -662,6 +664,9 @@ def get_item(I, obj, idx):
 
 def set_item(I, obj, idx, v):
     from .interp import Raised
+    if getattr(obj, 'kind', '') == 'repeatdict':
+        obj.state.repeat_set(I, idx, v)
+        return
     if isinstance(obj, VAny) and I.spec_mode == 0 and \
             (getattr(I.contract, 'ghost', None) or {}).get('opaque_subscript'):
         # obj[idx] = v on an opaque object: an event of the ghost trace
@@ -904,6 +909,9 @@ def havoc_ghost(I, spec):
         rec.fields[fld].has, rec.fields[fld].val = f.has, f.val
     if '__token' in I.env:
         I.env['__token'] = fresh(Ty('opt', [Ty('int')]), 'loop_token')
+    for nm in list(I.ghost.get('repeat_map', {})):
+        I.ghost['repeat_map'][nm] = z3.Int(fresh_name('repeat_item_loop'))
+    I.ghost['repeat_kept'] = {}
 
 
 class QuantGen(V):
